@@ -4,7 +4,7 @@ import sys
 import time
 import traceback
 
-from . import common, facts, interp, wire, rules_wire, rules_header, rules_hash, golden, hashrec, rules_align, gen_units, guards
+from . import common, facts, interp, wire, rules_wire, rules_header, rules_hash, golden, hashrec, rules_align, gen_units, guards, rules_eps, rules_err
 from .common import Report, Facts, ExportError
 
 ASSUME_COMMON = [
@@ -512,7 +512,98 @@ def canon_params(t):
     return tuple(canon_params(x) if isinstance(x, tuple) else x for x in t)
 
 
-CHECKS = {"C16": check_C16, "C07": check_C07, "C04": check_C04, "C06": check_C06, "C10": check_C10, "C01": check_C01, "C02": check_C02, "C15": check_C15, "C05": check_C05}
+DESER_SCOPE = ("epserde/src/deser/", "epserde/src/impls/")
+SER_SCOPE = ("epserde/src/ser/", "epserde/src/impls/")
+
+
+def check_C12(ctx):
+    rep = ctx.rep
+    rep.rule("ALIGN-GUARD", "the slice-backed align returns Ok only after establishing `address of remaining data % unit(T) == 0` (checked after the skip) and AlignmentError exactly otherwise")
+    rep.rule("W4(eps)", "every block carved by an eps reader is immediately preceded by align::<T'> with unit(T') = unit(T), its result propagated")
+    rep.rule("S-WHO", "Error::AlignmentError is constructed only by the slice-backed align and by load_mem's pre-check")
+    rep.rule("LOADMEM-PRECHECK", "load_mem rejects types whose native alignment exceeds that of the heap region, before touching the file")
+    rep.rule("M1", "unit(T) >= align_of::<T>() and a power of two for the universe of closed zero-copy types (so `multiple of the unit` implies `aligned for the type`)")
+    ts = wire_props(ctx, ("eps",), ("W4",), 56)
+    u = ctx.universe("default", CORPUS)
+    rules_eps.rule_align_guard(u, rep)
+    role, ab = rules_eps.slice_align_impl(u)
+
+    def allowed(b):
+        return (ab is not None and b.id == ab.id) or b.d.get("name") == "load_mem"
+    n = rules_err.rule_who_constructs(u, rep, "epserde::deser::Error", "AlignmentError", allowed, "S-WHO")
+    rep.floor("AlignmentError construction sites", n, 2)
+    rules_eps.rule_load_mem_precheck(u, rep)
+    try:
+        uu, cname = units_universe(ctx)
+        rules_align.rule_M1(uu, rep, cname)
+    except ExportError as ex:
+        rep.add("M1", "universe", "the universe of closed zero-copy types no longer compiles: " + str(ex)[-300:])
+    # the result of every align call on the eps side is propagated
+    rules_err.rule_PERR(u, rep, DESER_SCOPE)
+    return ("Guard of the only address-alignment check extracted from all paths of the slice-backed align; dominance of that call over every carve (adjacency in the wire term "
+            "of every eps reader); who-may-construct for AlignmentError; unit >= native alignment over a universe of closed types. The per-placement outcome table is not decided.")
+
+
+def check_C03(ctx):
+    rep = ctx.rep
+    rep.rule("PROV", "on every eps path that consumes a raw block, the returned value is a reinterpretation (align_to / index / str transmute) of exactly the bytes consumed at the cursor")
+    rep.rule("HEAPFREE", "such paths contain no call into `alloc` and build no vector")
+    rep.rule("RAW-CARVE", "no eps reader builds slices or pointers from the input buffer by hand (from_raw_parts / pointer arithmetic on backend.data)")
+    rep.rule("W1/W4(eps)", "the block has the written length (count linked to the length prefix) and is preceded by the alignment point of its unit")
+    rep.rule("ALIGN-GUARD", "the alignment point of the slice-backed reader checks the absolute address")
+    ts = wire_props(ctx, ("eps",), ("W1", "W4", "PROB"), 56)
+    u = ctx.universe("default", CORPUS)
+    n = rules_eps.rule_eps_borrow(u, ts, rep)
+    rep.floor("zero-copy eps paths analysed", n, 20)
+    rules_eps.rule_align_guard(u, rep)
+    return ("Every borrowing path of every eps reader (built-in and corpus) is checked for provenance of the result from the consumed input bytes, absence of allocation, "
+            "absence of hand-made slices, written length and alignment point. Measured allocation amounts of the deep skeleton are not decided.")
+
+
+def check_C11(ctx):
+    rep = ctx.rep
+    rep.rule("W1", "every byte the writer emits has a consuming event in both readers (so every cut lands inside or before some read)")
+    rep.rule("P-ERR", "in deser/ and impls/: no Result of a read is discarded, tested-and-forgotten (is_ok/ok) or defaulted")
+    rep.rule("S-WHO", "std::io::Read::read (the short-read form) is not called in deser/ and impls/")
+    rep.rule("RAW-CARVE", "eps readers touch the input only through bounds-checked slicing/indexing (no from_raw_parts / get_unchecked on backend.data); unknown uses of the backend are reported")
+    rep.rule("CURSOR", "every peek is consumed by a skip of the same amount and the position advances by the same amount (nothing is read twice or past the cursor)")
+    rep.rule("MAPLEN", "the mmap loader maps exactly the file length")
+    ts = wire_props(ctx, ("full", "eps"), ("W1", "PROB"), 56)
+    u = ctx.universe("default", CORPUS)
+    rules_eps.rule_eps_borrow(u, ts, rep, props=("raw",))
+    n = rules_err.rule_PERR(u, rep, DESER_SCOPE)
+    rep.floor("Result-returning call sites in deser/impls", n, 60)
+    rules_err.rule_who_calls(u, rep, {"std::io::Read::read", "std::io::Read::read_to_end", "std::io::Read::read_buf"}, DESER_SCOPE, "S-WHO",
+                             "short reads must be handled by read_exact, whose contract turns a premature end of file into an error")
+    rules_eps_mmap_len(u, rep)
+    return ("Static content of 'a strict prefix is never turned into a value': sibling agreement of the byte consumption, error discipline of every read, closed list of ways "
+            "the eps reader touches the input (bounds-checked), exact mapping length. Which error each individual cut yields is not decided.")
+
+
+def rules_eps_mmap_len(u, rep):
+    """Deserialize::mmap: the length passed to MmapOptions::new is the file length, unrounded."""
+    for b in u.bodies.values():
+        if b.d.get("name") != "mmap" or b.d.get("krate") != "epserde" or b.thir is None or b.kind != "AssocFn":
+            continue
+        acc = []
+        rules_err.calls_in(b.crate, b.thir["root"], acc)
+        for (dj, rj, e) in acc:
+            if dj.get("name") == "new" and dj.get("krate") == "mmap_rs" and e["args"]:
+                a = e["args"][0]
+                # the argument must be (a cast of) the variable bound to metadata().len()
+                def strip(x):
+                    while x.get("k") in ("Cast", "Use", "NeverToAny"):
+                        x = x["e"]
+                    return x
+                a0 = strip(a)
+                ok = a0.get("k") == "Var"
+                rep.oblige(ok)
+                rep.count("mmap_len_sites")
+                if not ok:
+                    rep.add("MAPLEN", "mmap", "the mmap loader maps `%s` bytes rather than exactly the file length" % a0.get("k"), b.crate.span(e["sp"]))
+
+
+CHECKS = {"C12": check_C12, "C03": check_C03, "C11": check_C11, "C16": check_C16, "C07": check_C07, "C04": check_C04, "C06": check_C06, "C10": check_C10, "C01": check_C01, "C02": check_C02, "C15": check_C15, "C05": check_C05}
 
 
 def main(argv):
